@@ -11,6 +11,7 @@
 import UnicLocale.Lemmas.Direction
 import UnicLocale.Lemmas.Total
 import UnicLocale.Lemmas.GenDataDerived
+import UnicLocale.Lemmas.GenDataLayout
 
 namespace UL.Props.C14
 open UL UL.Dir UL.Tot
@@ -79,6 +80,70 @@ example : LangId.direction true tinyTables Gen.layout
 example : LangId.direction false tinyTables Gen.layout {} = .ok .ltr := by decide
 example : Gen.layout.ltr.contains (pack [71,114,101,107]) = false ∧ Gen.layout.rtl.contains (pack [71,114,101,107]) = false
     ∧ Gen.layout.ttb.contains (pack [71,114,101,107]) = false ∧ Gen.layout.rtlLangs.contains (pack [101,110]) = false := by decide
+
+/-- both unconditional clauses at once, in the form the check's oracle evaluates them: whenever
+    `Spec.directionClause` names a direction, `character_direction` returns it — every flag, every
+    table set, every region and variant list -/
+theorem direction_meets_clause (flag : Bool) (T : Tables) (L : Layout) (x : LangId) (d : LangId.Dir)
+    (h : Spec.directionClause L x.language x.script = some d) : LangId.direction flag T L x = .ok d := by
+  unfold Spec.directionClause at h
+  -- the language arm, shared by "no script" and "unlisted script"
+  have lang_arm : ∀ (hs : ∀ sc, x.script = some sc →
+        L.ltr.contains (pack sc) = false ∧ L.rtl.contains (pack sc) = false ∧ L.ttb.contains (pack sc) = false),
+      (if (x.language.isSome && L.rtlLangs.contains (Spec.packOpt x.language)) = true then none else some LangId.Dir.ltr) = some d →
+      LangId.direction flag T L x = .ok d := by
+    intro hs h
+    cases hl : x.language with
+    | none =>
+      rw [hl] at h
+      simp only [Option.isSome_none, Bool.false_and, Bool.false_eq_true, ↓reduceIte, Option.some.injEq] at h
+      subst h
+      exact unlisted_is_ltr flag T L x hs (by intro lb hb; rw [hl] at hb; cases hb)
+    | some lb =>
+      rw [hl] at h
+      cases hr : L.rtlLangs.contains (pack lb) with
+      | true =>
+        simp only [Option.isSome_some, Bool.true_and, Spec.packOpt, hr, ↓reduceIte] at h
+        cases h
+      | false =>
+        simp only [Option.isSome_some, Bool.true_and, Spec.packOpt, hr, Bool.false_eq_true, ↓reduceIte, Option.some.injEq] at h
+        subst h
+        exact unlisted_is_ltr flag T L x hs (by intro lb' hb; rw [hl] at hb; cases hb; exact hr)
+  cases hsc : x.script with
+  | none =>
+    rw [hsc] at h
+    simp only [Option.isSome_none, Bool.false_and, Bool.false_eq_true, ↓reduceIte] at h
+    exact lang_arm (by intro sc hs; rw [hsc] at hs; cases hs) h
+  | some sc =>
+    rw [hsc] at h
+    simp only [Option.isSome_some, Bool.true_and, Spec.packOpt] at h
+    cases h0 : L.ltr.contains (pack sc) with
+    | true =>
+      simp only [h0, ↓reduceIte, Option.some.injEq] at h
+      subst h
+      exact script_ltr_decides flag T L x sc hsc h0
+    | false =>
+      simp only [h0, Bool.false_eq_true, ↓reduceIte] at h
+      cases h1 : L.rtl.contains (pack sc) with
+      | true =>
+        simp only [h1, ↓reduceIte, Option.some.injEq] at h
+        subst h
+        exact script_rtl_decides flag T L x sc hsc h0 h1
+      | false =>
+        simp only [h1, Bool.false_eq_true, ↓reduceIte] at h
+        cases h2 : L.ttb.contains (pack sc) with
+        | true =>
+          simp only [h2, ↓reduceIte, Option.some.injEq] at h
+          subst h
+          exact script_ttb_decides flag T L x sc hsc h0 h1 h2
+        | false =>
+          simp only [h2, Bool.false_eq_true, ↓reduceIte] at h
+          exact lang_arm (by intro sc' hs; rw [hsc] at hs; cases hs; exact ⟨h0, h1, h2⟩) h
+
+/-- the compiled layout is the layout the CLDR files determine, so the oracle (which reads the
+    CLDR-derived layout) and the code (which reads the compiled one) speak about the same sets -/
+theorem compiled_layout_is_derived : Gen.layout = Spec.derivedLayout Gen.cldrLayout :=
+  Gen.layout_derived
 
 /-! ### variants never matter; the region matters only in the RTL-language arm -/
 
